@@ -234,9 +234,12 @@ def run_ctor(cls, overrides):
 
 def run_check_all(cls, assign):
     """the validation unit of the randomise stage: `_check_all(value)` on an instance with reassigned attributes"""
-    m = make(cls, scripted=True)
-    for a, v in assign.items():
-        setattr(m, a, v)
+    try:
+        m = make(cls, scripted=True)
+        for a, v in assign.items():
+            setattr(m, a, v)
+    except Exception as e:  # noqa
+        return "base-construction-failed:" + kind_of(e)
     try:
         with warnings.catch_warnings():
             warnings.simplefilter("ignore")
@@ -249,9 +252,12 @@ def run_check_all(cls, assign):
 
 def run_rand(cls, assign, scripted=True):
     """construct validly, assign attributes, randomise -> (kind, what came back)"""
-    m = make(cls, scripted=scripted)
-    for a, v in assign.items():
-        setattr(m, a, v)
+    try:
+        m = make(cls, scripted=scripted)
+        for a, v in assign.items():
+            setattr(m, a, v)
+    except Exception as e:  # noqa - the VALID base construction failed: a library defect, reported by the caller
+        return "base-construction-failed:" + kind_of(e), None
 
     def go():
         try:
@@ -272,7 +278,10 @@ def run_rand(cls, assign, scripted=True):
 def run_seq(cls, assign, scripted=True):
     """construct -> one successful randomise (+ bias / variance / mse / effective_epsilon where they exist) -> assign ->
     randomise again.  Guards against any 'validated once, then cached' pattern."""
-    m = make(cls)
+    try:
+        m = make(cls)
+    except Exception as e:  # noqa
+        return "first-randomise-failed:construction:" + kind_of(e), None
     value = SPEC[cls]["value"]
 
     def first():
@@ -341,10 +350,10 @@ def ctor_line(cls, overrides):
 
 
 def rand_line(cls, assign):
-    m = make(cls)
-    vals = {}
-    for a in attrs_of(cls):
-        vals[a] = getattr(m, a)
+    try:
+        vals = base_attrs(cls)
+    except RuntimeError:      # reported once per class by check_mechanisms
+        vals = {p: v for p, v in SPEC[cls]["kw"].items() if p in VAR}
     vals.update(assign)
     parts = [f"{VAR[p]}={tok(v)}" for p, v in vals.items()]
     if SPEC[cls]["vtok"]:
@@ -399,9 +408,28 @@ def ctor_view(cls, overrides):
     return vals
 
 
+_BASE = {}
+
+
+def base_attrs(cls):
+    """attribute values of a validly constructed instance (cached).  Raises if the VALID base configuration cannot be
+    constructed any more — the caller turns that into a per-class disagreement."""
+    if cls not in _BASE:
+        try:
+            with warnings.catch_warnings():
+                warnings.simplefilter("ignore")
+                m = make(cls)
+            _BASE[cls] = ("ok", {a: getattr(m, a) for a in attrs_of(cls)})
+        except Exception as e:  # noqa
+            _BASE[cls] = ("broken", f"{type(e).__name__}: {str(e)[:200]}")
+    st, v = _BASE[cls]
+    if st != "ok":
+        raise RuntimeError(f"valid {cls}({SPEC[cls]['kw']}) can no longer be constructed: {v}")
+    return dict(v)
+
+
 def rand_view(cls, assign):
-    m = make(cls)
-    vals = {a: getattr(m, a) for a in attrs_of(cls)}
+    vals = base_attrs(cls)
     vals.update(assign)
     return vals
 
@@ -480,22 +508,113 @@ def check_mechanisms(ctx):
     lines = [ctor_line(c, a) if s == "ctor" else rand_line(c, a) for c, s, a in cases]
     ctx.count("sequence_cases", len([1 for c in cases if c[1] == "seq"]))
     outs = leanio.run_driver("Validation", lines)
+    broken = set()
+    for cls in SPEC:
+        try:
+            base_attrs(cls)
+        except RuntimeError as e:
+            broken.add(cls)
+            ctx.disagree("mechanism.base", {"cls": cls, "kwargs": {k: enc(v) for k, v in SPEC[cls]["kw"].items() if k in VAR}},
+                         "ok", str(e), note="a valid parameter set is refused / crashes")
     for (cls, stage, assign), model in zip(cases, outs):
-        if stage == "ctor":
-            kind, vkind = run_ctor(cls, assign)
-            judge_mech(ctx, cls, stage, assign, kind, None, model, vkind)
-        elif stage == "seq":
-            kind, out = run_seq(cls, assign)
-            # when the model's validation passes, an error raised later by the sampler's own computations (e.g. a float
-            # `dimension` used in range()) is outside the modelled unit; the `rand` stage compares `_check_all` itself
-            judge_mech(ctx, cls, stage, assign, kind, out, model,
-                       "ok" if (model == "ok" and not kind.startswith("first-")) else kind)
-        else:
-            kind, out = run_rand(cls, assign)
-            judge_mech(ctx, cls, stage, assign, kind, out, model, run_check_all(cls, assign))
+        if cls in broken:
+            continue
+        try:
+            if stage == "ctor":
+                kind, vkind = run_ctor(cls, assign)
+                judge_mech(ctx, cls, stage, assign, kind, None, model, vkind)
+            elif stage == "seq":
+                kind, out = run_seq(cls, assign)
+                # when the model's validation passes, an error raised later by the sampler's own computations (e.g. a
+                # float `dimension` used in range()) is outside the modelled unit; `rand` compares `_check_all` itself
+                judge_mech(ctx, cls, stage, assign, kind, out, model,
+                           "ok" if (model == "ok" and not kind.startswith("first-")) else kind)
+            else:
+                kind, out = run_rand(cls, assign)
+                judge_mech(ctx, cls, stage, assign, kind, out, model, run_check_all(cls, assign))
+        except Exception as e:  # noqa - never abort the sweep: an unexpected exception is a per-case disagreement
+            ctx.disagree("mechanism." + stage, {"cls": cls, "stage": stage, "assign": {a: enc(v) for a, v in assign.items()}},
+                         model, f"harness/library raised {type(e).__name__}: {str(e)[:200]}")
     ctx.count("mechanism_cases", len(cases))
     ctx.sample({"cls": "Laplace", "stage": "ctor", "assign": {"epsilon": "nan"}, "impl": run_ctor("Laplace", {"epsilon": NAN})[0]})
     ctx.sample({"cls": "Binary", "stage": "rand", "assign": {"delta": "0.5"}, "impl": run_rand("Binary", {"delta": 0.5})[0]})
+
+
+class Impostor:
+    """not a number, but equal to (and hashing like) the valid value `v`: defeats any cache keyed on the arguments"""
+
+    def __init__(self, v):
+        self.v = v
+
+    def __eq__(self, other):
+        return other == self.v
+
+    def __hash__(self):
+        return hash(self.v)
+
+    def __repr__(self):
+        return f"Impostor({self.v!r})"
+
+
+def impostors_of(v):
+    from decimal import Decimal
+    out = [("complex", complex(v, 0)), ("np.complex128", np.complex128(v)), ("Impostor", Impostor(v))]
+    try:
+        if Decimal(str(v)) == Decimal(v):
+            out.append(("Decimal", Decimal(str(v))))
+    except Exception:  # noqa
+        pass
+    return out
+
+
+def check_impostors(ctx):
+    """for each (class, parameter, valid value v): one valid construct + randomise with v (warming any cache), then
+    non-numeric values that compare and hash EQUAL to v; each must be refused at construction and at randomise"""
+    n = 0
+    for cls in SPEC:
+        try:
+            base = base_attrs(cls)
+        except RuntimeError:
+            continue
+        cp = ctor_params(cls)
+        for p in attrs_of(cls):
+            vals = [base[p]]
+            if p == "epsilon" and cls != "Uniform":
+                vals += [0.5]
+            for v in vals:
+                if not is_real(v) or v != v or v in (INF, -INF):
+                    continue
+                over = {p: v} if p in cp else {}
+                warm_c = run_ctor(cls, over)[0]
+                warm_r = run_rand(cls, {p: v})[0]
+                if warm_c != "ok" or warm_r != "ok":
+                    ctx.disagree("mechanism.impostor-warm", {"cls": cls, "param": p, "value": enc(v)}, "ok", [warm_c, warm_r])
+                    continue
+                for tname, imp in impostors_of(v):
+                    for stage in (["ctor"] if p in cp else []) + ["rand"]:
+                        n += 1
+                        try:
+                            kind = run_ctor(cls, {p: imp})[0] if stage == "ctor" else run_rand(cls, {p: imp})[0]
+                        except Exception as e:  # noqa
+                            ctx.disagree("mechanism.impostor", {"cls": cls, "param": p, "impostor": repr(imp)},
+                                         "raises TypeError", f"harness/library raised {type(e).__name__}: {e}")
+                            continue
+                        ctx.case((cls, stage, p, tname, enc(v)))
+                        if kind in ("typeError", "valueError"):
+                            ctx.trace_ok()
+                            continue
+                        ret = ""
+                        if stage == "rand":
+                            k2, r2 = run_rand(cls, {p: imp}, scripted=False)
+                            ret = f"; randomise returned {r2!r}" if k2 == "ok" else ""
+                        ctx.violation(f"C13:{cls}:{p}:non-numeric-equal-to-valid({tname}):"
+                                      + ("accepted" if stage == "ctor" else "accepted-at-randomise"),
+                                      f"{cls}: after a valid use with {p}={v!r}, the non-numeric {imp!r} (== {v!r}, same hash) "
+                                      + ("was accepted by the constructor" if stage == "ctor"
+                                         else "assigned to the attribute was accepted by randomise") + f" -> {kind}{ret}",
+                                      {"unit": "impostor", "cls": cls, "stage": stage, "param": p, "value": enc(v),
+                                       "impostor": tname})
+    ctx.count("impostor_cases", n)
 
 
 # ------------------------------------------------------------------------------------------------ validation.py, Budget
@@ -585,6 +704,13 @@ def acc_state(a):
 def check_accountant(ctx):
     BA = dp.BudgetAccountant
     lines, recs = [], []
+
+    def valid_acc(*a, **k):
+        """a VALID accountant; if the library refuses / crashes, the case is recorded with that fact as its result"""
+        try:
+            return BA(*a, **k), None
+        except Exception as e:  # noqa
+            return None, f"valid-accountant-construction-raised:{type(e).__name__}"
     # constructor
     for e in CAT:
         for d in [0, 0.5, 1.0, 1 + 1e-9, NAN, "1", None, -5e-324]:
@@ -598,7 +724,10 @@ def check_accountant(ctx):
             inv = ("slack", tag(s))
         elif not 0 <= s <= 0.5:
             inv = ("slack", "out-of-[0,delta]" if s == s else "nan")
-        a = BA(1.0, 0.5)
+        a, bad = valid_acc(1.0, 0.5)
+        if bad:
+            recs.append(("BudgetAccountant.slack", (s,), bad, None, None))
+            continue
         before = acc_state(a)
         k = call_kind(lambda v: setattr(a, "slack", v), s)[0]
         recs.append(("BudgetAccountant.slack", (s,), k, inv, None if k == "ok" else (before, acc_state(a))))
@@ -608,8 +737,8 @@ def check_accountant(ctx):
         inv = None
         if not isinstance(kk, (int,)) or (is_real(kk) and kk < 1):
             inv = ("k", tag(kk))
-        a = BA(1.0, 0.5)
-        recs.append(("BudgetAccountant.remaining", (kk,), call_kind(a.remaining, kk)[0], inv, None))
+        a, bad = valid_acc(1.0, 0.5)
+        recs.append(("BudgetAccountant.remaining", (kk,), bad or call_kind(a.remaining, kk)[0], None if bad else inv, None))
     # check / spend
     configs = [(INF, 1.0, []), (1.0, 0.5, [(0.25, 0.0)]), (1.0, 0.0, []), (2.0, 1.0, [(0.5, 0.25), (0.5, 0.25)])]
     spends = [(e, d) for e in CAT for d in [0, 0.0, 0.25, 0.5, 1.0, 1 + 1e-9, NAN, "1", None, -5e-324]]
@@ -619,7 +748,10 @@ def check_accountant(ctx):
         for e, d in spends:
             for op in ("check", "spend"):
                 lines.append(f"acc {op} {ext_tok(ce)} {ext_tok(cd)} {len(prior)} {flat} epsilon={tok(e)} delta={tok(d)}")
-                a = BA(ce, cd, spent_budget=list(prior))
+                a, bad = valid_acc(ce, cd, spent_budget=list(prior))
+                if bad:
+                    recs.append((f"BudgetAccountant.{op}", (ce, cd, len(prior), e, d), bad, None, None))
+                    continue
                 before = acc_state(a)
                 k = call_kind(getattr(a, op), e, d)[0]
                 after = acc_state(a)
@@ -735,6 +867,12 @@ def check_entries(ctx):
     lines, recs = [], []
     entries = [("tool", n, hb, f) for n, (hb, f) in tool_calls().items()] + \
               [("model", n, hb, f) for n, (hb, f) in model_calls().items()]
+    try:
+        BA(100.0, 0.0, spent_budget=[(0.5, 0.0)])
+    except Exception as e:  # noqa
+        ctx.disagree("entry.accountant", "BudgetAccountant(100.0, 0.0, spent_budget=[(0.5, 0.0)])", "ok",
+                     f"raised {type(e).__name__}: {e}", note="a valid accountant cannot be constructed")
+        return
     for group, name, has_bounds, f in entries:
         cases = [(e, (0, 1)) for e in EPS_CAT]
         if has_bounds:
@@ -827,11 +965,15 @@ def generate(ctx):
 
 def check(ctx):
     with seams.fresh_default_accountant():
-        check_mechanisms(ctx)
-        check_validation(ctx)
-        check_accountant(ctx)
-        check_entries(ctx)
-        notes_sweep(ctx)
+        for sub in (check_mechanisms, check_impostors, check_validation, check_accountant, check_entries, notes_sweep):
+            try:
+                sub(ctx)
+            except leanio.LeanError:
+                raise
+            except Exception as e:  # noqa - last resort: the per-case guards inside should have caught it
+                import traceback
+                ctx.disagree("c13." + sub.__name__, "sub-check aborted", "completes",
+                             f"{type(e).__name__}: {str(e)[:200]} @ {traceback.format_exc()[-400:]}")
 
 
 def replay(ctx, data):
@@ -845,6 +987,14 @@ def replay(ctx, data):
             kind, _ = run_seq(d["cls"], assign)
         else:
             kind, _ = run_rand(d["cls"], assign)
+        return kind not in ("typeError", "valueError")
+    if d.get("unit") == "impostor":
+        v = dec(d["value"])
+        imp = dict(impostors_of(v))[d["impostor"]]
+        cp = ctor_params(d["cls"])
+        run_ctor(d["cls"], {d["param"]: v} if d["param"] in cp else {})
+        run_rand(d["cls"], {d["param"]: v})
+        kind = (run_ctor(d["cls"], {d["param"]: imp})[0] if d["stage"] == "ctor" else run_rand(d["cls"], {d["param"]: imp})[0])
         return kind not in ("typeError", "valueError")
     if d.get("unit") in ("tool", "model"):
         calls = dict(tool_calls())
